@@ -574,6 +574,21 @@ impl<C: HCfg> Node<C> {
                             }
                         }
                     }
+                    // C03 for spectators: what is handed out as Confirmed is the real input,
+                    // Disconnected comes with the default input, nothing is ever Predicted
+                    if ck & CK_C03 != 0 && is_spec && inputs.len() == cx.scn.num_players {
+                        for (p, (v, s)) in inputs.iter().enumerate() {
+                            let t = cx.scn.truth(p, f);
+                            let bad = match s {
+                                InputStatus::Confirmed => *v != t,
+                                InputStatus::Disconnected => *v != 0,
+                                InputStatus::Predicted => true,
+                            };
+                            if bad {
+                                cx.v("C03", "spectator-input-untrue", ni, format!("spectator frame {f} player {p}: handed ({v}, {s:?}), the real input is {t}"));
+                            }
+                        }
+                    }
                     if ck & CK_C04 != 0 && lockstep {
                         for (p, (_, s)) in inputs.iter().enumerate() {
                             if *s == InputStatus::Predicted {
